@@ -36,20 +36,20 @@ import (
 // class chars: 0..3 = an object whose class is that chain level, x = an
 // object outside the chain.
 type Case struct {
-	Kind  string     `json:"kind"`            // seq | conc | park
-	Fam   string     `json:"fam"`             // clos (defclass chain) | num (real > rational > integer > fixnum)
-	Ar    int        `json:"ar"`              // number of required arguments
-	Note  string     `json:"note,omitempty"`  // generator block
-	Pre   []string   `json:"pre,omitempty"`   // definitions made before the history starts
-	Ops   []string   `json:"ops,omitempty"`   // seq: the history; conc/park: unused
-	Sweep bool       `json:"sweep,omitempty"` // seq: after the history call every class tuple once more
-	InGF  bool       `json:"ingf,omitempty"`  // seq: Pre is given as :method options of the defgeneric form
+	Kind  string   `json:"kind"`            // seq | conc | park
+	Fam   string   `json:"fam"`             // clos (defclass chain) | num (real > rational > integer > fixnum)
+	Ar    int      `json:"ar"`              // number of required arguments
+	Note  string   `json:"note,omitempty"`  // generator block
+	Pre   []string `json:"pre,omitempty"`   // definitions made before the history starts
+	Ops   []string `json:"ops,omitempty"`   // seq: the history; conc/park: unused
+	Sweep bool     `json:"sweep,omitempty"` // seq: after the history call every class tuple once more
+	InGF  bool     `json:"ingf,omitempty"`  // seq: Pre is given as :method options of the defgeneric form
 	// Retained (dag family): the final sweep also calls with the instances
 	// made before their classes were redefined
 	Retained bool `json:"retained,omitempty"`
 	// Bare (seq): every second method version writes its unspecialised
 	// required parameters as bare symbols, x instead of (x t)
-	Bare bool `json:"bare,omitempty"`
+	Bare  bool       `json:"bare,omitempty"`
 	Thr   [][]string `json:"thr,omitempty"`   // conc: one op list per goroutine; park: [caller, definer]
 	PSeed uint64     `json:"pseed,omitempty"` // conc: seed of the schedule perturbation
 	// NoLin (conc): no logical clock and no linearizability check: the
@@ -270,7 +270,6 @@ func specName(fam string, s int) string {
 }
 
 var params = []string{"x", "y", "z"}
-
 
 func hasT(spec []int) bool {
 	for _, s := range spec {
@@ -1356,7 +1355,7 @@ func randSupers(r *rand.Rand, k int) []int {
 // reports at the time of each call.
 func genDag(r *rand.Rand) Case {
 	ar := []int{1, 1, 1, 1, 1, 2, 2, 2, 2, 3}[r.IntN(10)]
-	c := Case{Kind: "seq", Fam: "dag", Ar: ar, Note: "dag", Sweep: ar < 3 || r.IntN(3) == 0, Retained: r.IntN(4) == 0, Bare: r.IntN(4) == 0}
+	c := Case{Kind: "seq", Fam: "dag", Ar: ar, Note: "dag", Sweep: ar < 3 || r.IntN(3) == 0, Retained: r.IntN(4) == 0, Bare: r.IntN(2) == 0}
 	nCls := 3 + r.IntN(3)
 	supers := map[int][]int{}
 	for k := 0; k < nCls; k++ {
@@ -1486,11 +1485,11 @@ func gen(r *rand.Rand, i int, tier string) Case {
 		}
 	}
 	if i < s.long {
-		return Case{Kind: "seq", Fam: fam, Ar: ar, Note: "long", Pre: pre, InGF: pre != nil, Ops: genHistory(r, fam, ar, 200, pre), Sweep: true, Bare: pre == nil && r.IntN(4) == 0}
+		return Case{Kind: "seq", Fam: fam, Ar: ar, Note: "long", Pre: pre, InGF: pre != nil, Ops: genHistory(r, fam, ar, 200, pre), Sweep: true, Bare: pre == nil && r.IntN(2) == 0}
 	}
 	i -= s.long
 	if i < s.short {
-		return Case{Kind: "seq", Fam: fam, Ar: ar, Note: "len7", Pre: pre, InGF: pre != nil, Ops: genHistory(r, fam, ar, 3+r.IntN(5), pre), Sweep: r.IntN(2) == 0, Bare: pre == nil && r.IntN(4) == 0}
+		return Case{Kind: "seq", Fam: fam, Ar: ar, Note: "len7", Pre: pre, InGF: pre != nil, Ops: genHistory(r, fam, ar, 3+r.IntN(5), pre), Sweep: r.IntN(2) == 0, Bare: pre == nil && r.IntN(2) == 0}
 	}
 	i -= s.short
 	return genExh(i, tier)
@@ -1525,11 +1524,11 @@ func init() {
 			"directed interleavings (caller parked between effective-method lookup, or default-caller pick, and execution while definitions change); concurrent histories (<= 8 goroutines, <= 30 ops, " +
 			"porcupine-checked, one in five around the single-method fast path); concurrent class definition histories (one goroutine evaluates defclass, the others call: each call must match the precedence " +
 			"list its argument had before, between or after the definitions, and calls made after the join must match the final lists); random class redefinition histories (dag family, 10-35 ops, final sweep); " +
-			"random histories of 200 ops and of length <= 7 over the full alphabet (one in four starting from :method options of defgeneric, one in four with bare-symbol parameters); " +
+			"random histories of 200 ops and of length <= 7 over the full alphabet (one in four starting from :method options of defgeneric, one in two with bare-symbol parameters); " +
 			"then ALL histories of length 4 (quick) / 5 (thorough) ending in a call over nine 15-symbol alphabets (2 qualifiers x 3 specializer tuples x define/remove, 3 call tuples). " +
 			"distinct = distinct case JSON; non-trivial = at least one judged call and one change of the method table or class graph. " +
-			"Minority treatment of listed findings: instances retained across a redefinition of their own class are called in 1/4 of the dag histories; bare-symbol parameters in 1/4 of the random histories " +
-			"(a history ends at a remove-method that had no effect); concurrent callers use instances of classes the definer does not replace itself.",
+			"Minority treatment of the listed finding 'cache keyed by class name': instances retained across a redefinition of their own class are called in 1/4 of the dag histories; " +
+			"concurrent callers use instances of classes the definer does not replace itself. A worker death or hang is a violation (crash:/hang: signature).",
 		N:        nCases,
 		Gen:      gen,
 		Exec:     exec,
@@ -1537,6 +1536,9 @@ func init() {
 		Race:     true,
 		Batch:    750,
 		HangSecs: 60,
+		// a worker death (e.g. the Go runtime's fatal 'concurrent map read and
+		// map write') or a hang is a violation, matched against crash:/hang: signatures
+		CrashIsViolation: true,
 		Assumptions: []string{
 			"the reference dispatcher (internal/c10/ref, written from the property statement and design/generics.md) is the trusted oracle",
 			"defclass chains give the class precedence list leaf..root, standard-object, t (checked by C12)",
